@@ -1,17 +1,42 @@
-/- Driver domain `exc`: what the forwarding proxy answers for each attribute of the original. -/
+/- Driver domain `exc`: what the forwarding proxy answers for each attribute of the original, and — when the
+   case describes the call path — what reaches the caller after the exception passed every configurable on it. -/
 import Gin.Drv.Util
 import Gin.ExcProxy
+import Gin.ExcChain
 open Lean
 
 namespace Gin.Drv.ExcDom
-open Gin Gin.Drv Gin.ExcProxy
+open Gin Gin.Drv Gin.ExcProxy Gin.ExcChain
+
+def levelOfJson (j : Json) : Level :=
+  { name := jstr (jfield j "name"), repr := jstr (jfield j "repr"), scope := jstr (jfield j "scope"),
+    posNames := jstrs (jfield j "posNames"), nArgs := jnat (jfield j "nArgs"), kwNames := jstrs (jfield j "kwNames"),
+    ginBound := jstrs (jfield j "ginBound"), callerSupplied := jstrs (jfield j "callerSupplied"),
+    frames := jstrs (jfield j "frames") }
 
 def run (case : Json) : Json :=
   -- attribute values are opaque canonical strings here: only the lookup protocol is modelled
   let orig : Exc := { slots := [], dict := (jarr (jfield case "orig")).map (fun kv => (jstr (jidx kv 0), Val.str (jstr (jidx kv 1)))) }
-  let attrs := orig.dict.map (fun kv => match proxyForward orig kv.1 with
-    | some (.str s) => Json.arr #[.str kv.1, .str s]
-    | _ => Json.arr #[.str kv.1, .null])
-  Json.mkObj [("attrs", .arr attrs.toArray)]
+  let chain := jfield case "chain"
+  if jisNull chain then
+    let attrs := orig.dict.map (fun kv => match proxyForward orig kv.1 with
+      | some (.str s) => Json.arr #[.str kv.1, .str s]
+      | _ => Json.arr #[.str kv.1, .null])
+    Json.mkObj [("attrs", .arr attrs.toArray)]
+  else
+    let c := jfield chain "cls"
+    let cls : ClassInfo := { name := jstr (jfield c "name"), module := jstr (jfield c "module"), bases := jstrs (jfield c "bases"),
+                             isException := jbool (jfield case "is_exception"),
+                             newAcceptsArgs := jbool (jfield c "newAcceptsArgs"), bareNewWorks := jbool (jfield c "bareNewWorks") }
+    let o : Original := { cls := cls, data := orig, str := jstr (jfield chain "str"), tb := jstrs (jfield chain "tb") }
+    let levels := (jarr (jfield chain "levels")).map levelOfJson
+    let f := propagate o levels
+    let attrs := orig.dict.map (fun kv => match f.getattr o kv.1 with
+      | some (.str s) => Json.arr #[.str kv.1, .str s]
+      | _ => Json.arr #[.str kv.1, .null])
+    Json.mkObj [("attrs", .arr attrs.toArray), ("same_object", .bool f.sameObject), ("str", .str (f.str o)),
+                ("tb", strs (tracebackAfter o levels)), ("depth", toJson f.depth),
+                ("catchable", .bool (cls.bases.all (fun b => f.isInstance o b))),
+                ("type_name", .str cls.name), ("type_module", .str cls.module)]
 
 end Gin.Drv.ExcDom
